@@ -6,6 +6,7 @@ CONSTANTS
   Prods <- TreeProds
   KISet <- KIClassic
   EnvWhereSet <- EnvWheres
+  SibSeqSet <- SibCover
   Deviations = {}
   EmitMin = 0
   EmitFrom = 9
